@@ -190,7 +190,13 @@ func checkTaint(r *core.Run, p *core.Program, a *analysis, rule string) {
 					okRoot := false
 					for _, s := range append(sanitized, clamps...) {
 						if s.root == root && s.pos < call.Pos() {
-							okRoot = true
+							// the bounding statement must lie on the way to the sink: its innermost enclosing
+							// block contains the sink (a submission inside a branch that leaves, e.g.
+							// `if n == 0 { OnArrayChunk(...); continue }`, bounds nothing for the other branch)
+							lo, hi := innermostBlock(f.Decl.Body, s.pos)
+							if lo <= call.Pos() && call.End() <= hi {
+								okRoot = true
+							}
 						}
 					}
 					if !okRoot {
@@ -416,4 +422,23 @@ func isArrayLongAccumulator(p *core.Program, fv *types.Var) bool {
 		})
 	}
 	return grows && !emptiedOnDataPath
+}
+
+// innermostBlock returns the extent of the innermost block statement or case clause of body that contains pos.
+func innermostBlock(body *ast.BlockStmt, pos token.Pos) (token.Pos, token.Pos) {
+	lo, hi := body.Pos(), body.End()
+	ast.Inspect(body, func(n ast.Node) bool {
+		if n == nil {
+			return true
+		}
+		if n.Pos() > pos || pos >= n.End() {
+			return n.Pos() <= pos // skip subtrees that do not contain pos
+		}
+		switch n.(type) {
+		case *ast.BlockStmt, *ast.CaseClause, *ast.CommClause:
+			lo, hi = n.Pos(), n.End()
+		}
+		return true
+	})
+	return lo, hi
 }
